@@ -95,6 +95,8 @@ def boundary_lines(ctx):
     add('integer', 0, "10 PRINT \"\n")
     add('merlin', 0, "* \n*\n;   \n LDA #$00 ;  x  \nLABEL\nLABEL2 RTS\n\n ASC \"a b  c\"\n")
     add('merlin', 0, " LDA #' '\n ASC ' ; not a comment'\n")
+    for src in langgen.merlin_boundary_sources():
+        add('merlin', 0, src)
     # escapes that cannot be represented
     for s in ['10 PRINT "\\x00"\n', '10 REM \\x00\n', '10 DATA \\x00\n', '10 PRINT "a\\x22 b"\n']:
         add('applesoft', 2049, s)
@@ -186,6 +188,16 @@ def run(ctx, model_ok=True):
             txt = rng.choice(['*', ';', '* ', '*-- ']) + ''.join(rng.choice(langgen.PRINTABLE + ['"', ' ', ' ']) for _ in range(rng.choice([0, 1, 5, 20, 60])))
             txt = txt.rstrip()
             lines.append(f"menc w{i} {hexs((txt + chr(10)).encode())}")
+            ncol = rng.choice([1, 2, 3, 4, 5])
+            cols = []
+            for c in range(ncol):
+                ln = rng.choice([0, 1, 3, 5, 6, 7, 8, 9, 10, 11, 12, 20])
+                body = ''.join(rng.choice('ABCXYZ09$#(),_') for _ in range(ln))
+                if c == ncol - 1 and rng.random() < 0.4:
+                    body = ';' + body
+                cols.append(body)
+            w = rng.choice([(9, 6, 11), (9, 6, 11), (1, 1, 1), (12, 8, 16), (0, 0, 0), (4, 9, 2)])
+            lines.append(f"mfmt f{i} {w[0]} {w[1]} {w[2]} {'|'.join(hexs(c.encode()) or '-' for c in cols)}")
         lines = [l.replace(' - ', ' - ') for l in lines]
         canon = lambda toks, o: None if o is None else (o if toks[0] != 'menc' else o)
         # the model's menc takes the text without the newline
